@@ -145,7 +145,7 @@ class Prop:
             yield from self._exhaustive(5, rng, sample=12)
         else:
             yield from self._exhaustive(5, rng, sample=150)
-        nrand = 300 if tier == "quick" else 4000
+        nrand = 300 if tier == "quick" else 3000
         weights = [3, 4, 1, 1, 1, 0.4]
         for _ in range(nrand):
             n = rng.randint(6, 14)
@@ -190,6 +190,7 @@ class Prop:
         # snapshot of the source by pointers, taken before anything runs
         snap = {id(n): list(n._children or []) for n in [tree._root] + nodes}
         src_before = H.sx_forest(tree._root, U)
+        snap["lab"] = {id(n): [U.index(n._data), H.sx_did(n._data_id)] for n in nodes}   # removed nodes lose their data
 
         log = []
 
@@ -223,6 +224,19 @@ class Prop:
             copies.append(o)
             new_trees.append(t2)
             call_logs.append(lg)
+        # the same entry points without a predicate: plain copies, ValueError
+        def err_of(fn):
+            try:
+                fn()
+            except Exception as e:  # noqa: BLE001
+                return H.err_class(e)
+            return 0
+
+        if start is None:
+            nopred = [copy_obs(lambda: tree.copy())[0], err_of(lambda: tree.filtered(None)), err_of(lambda: tree.filter(None))]
+        else:
+            nopred = [copy_obs(lambda: start.copy())[0], copy_obs(lambda: start.copy(add_self=False))[0],
+                      err_of(lambda: start.filtered(None)), err_of(lambda: start.filter(None))]
         src_after = H.sx_forest(tree._root, U)
         src_shape_after = ids_shape(tree._root._children or [])
 
@@ -235,7 +249,7 @@ class Prop:
             inplace, count = [-1, H.err_class(e)], -1
         call_logs.append(list(log))
 
-        obs = [copies, src_shape_after, inplace, count, call_logs]
+        obs = [copies, src_shape_after, inplace, count, call_logs, nopred]
         fail, finding, info = self.oracle(tree, U, nodes, snap, vd, start, obs, new_trees, src_before, src_after)
         nsc = info["scope"]
         return Case(desc=desc, coq_input=coq, impl_obs=obs, oracle_fail=fail, finding=finding,
@@ -247,7 +261,7 @@ class Prop:
 
     # ----- the property statement, executed on the pointer snapshot (not F's recursion)
     def oracle(self, tree, U, nodes, snap, vd, start, obs, new_trees, src_before, src_after):
-        copies, src_shape_after, inplace, count, call_logs = obs
+        copies, src_shape_after, inplace, count, call_logs, nopred = obs
         root = tree._root
         top = root if start is None else start
         parent = {}
@@ -323,7 +337,7 @@ class Prop:
             for c in snap[id(p)]:
                 if id(c) not in kept:
                     continue
-                lab = [U.index(c._data), H.sx_did(c._data_id)]
+                lab = snap["lab"][id(c)]
                 kids = exp_copy(c, d24)
                 if d24 and id(c) in visited_ids and verdict(c) in (V_TRUE, V_KEEPSELF):
                     kids = [lab + [[]]] + kids
@@ -335,8 +349,22 @@ class Prop:
 
         def wrap(k, body):
             if start is not None and k < 2:     # add_self=True: the start node itself on top
-                return [[U.index(start._data), H.sx_did(start._data_id), body]]
+                return [snap["lab"][id(start)] + [body]]
             return body
+
+        # without a predicate: the whole branch is copied / ValueError
+        def full(p):
+            return [snap["lab"][id(c)] + [full(c)] for c in snap[id(p)]]
+
+        ncopies = 1 if start is None else 2
+        for k in range(ncopies):
+            o = nopred[k]
+            if o and o[0] == -1:
+                return f"plain copy {k}: raised error class {o[1]}", None, info
+            if strip(o) != wrap(2 * k, full(top)):
+                return f"plain copy {k}: got {strip(o)} expected {wrap(2 * k, full(top))}", None, info
+        if nopred[ncopies:] != [3, 3]:
+            return f"missing predicate: error classes {nopred[ncopies:]}, expected ValueError twice", None, info
 
         plain = exp_copy(top, False)
         doubled = exp_copy(top, True)
